@@ -80,7 +80,9 @@ func init() {
 		Engine: "lattice",
 		Rule: "full product of 9 signature-method URIs (8 supported + unknown) x 7 SP keys (RSA 1024/2048/3072/4096, ECDSA P-256/384/521) x 7 message kinds (AuthnRequest redirect/POST, LogoutRequest redirect/POST, LogoutResponse redirect/POST, ArtifactResolve) x relay states x IdP endpoint with/without query string x request options (ForceAuthn / RequestedAuthnContext); " +
 			"oracle: the verifying certificate is taken from the SP's published metadata serialised and re-parsed; redirect binding: the octets SAMLRequest=..[&RelayState=..]&SigAlg=.. exactly as they appear in the emitted URL verify with crypto/rsa or crypto/ecdsa (independent of goxmldsig); XML: exactly one enveloped signature that verifies under a fresh context rooted in that certificate and names the configured method; a method that does not fit the key or is unknown yields an error and no message. non-trivial = every configuration",
-		Bounds:      func(tier string) string { return "full product (quick: RSA-3072/4096 and P-384/521 keys with 2 relay states; thorough: everything)" },
+		Bounds: func(tier string) string {
+			return "full product (quick: RSA-3072/4096 and P-384/521 keys with 2 relay states; thorough: everything)"
+		},
 		Assumptions: []string{"ECDSA signature values are accepted in ASN.1 or r||s encoding", "DSA / Ed25519 are not offered by the library"},
 		Run:         runC13,
 		CapQuick:    6 * time.Minute,
